@@ -102,12 +102,13 @@ Definition setitem (n : node) (key : name_t) (item : node) : option node :=
   end.
 
 (* BaseType.__copy__ / StructureType.__copy__ : clone the structure, share data tokens.
-   Every child of the copy is visible again (the copy re-inserts all of _dict). *)
+   All children (hidden ones too) are re-inserted, which re-derives every id; the copy then keeps
+   the visible keys of its source. *)
 Fixpoint copy_ids (i : id_t) (n : node) : node :=
   match n with
   | NBase nm _ at_ d => NBase nm i at_ d
-  | NStruct k nm _ at_ ks _ =>
-      NStruct k nm i at_ (map (fun c => copy_ids (child_id k i (nname c)) c) ks) (map nname ks)
+  | NStruct k nm _ at_ ks vis =>
+      NStruct k nm i at_ (map (fun c => copy_ids (child_id k i (nname c)) c) ks) vis
   end.
 Definition copy (n : node) : node := copy_ids (nid n) n.
 
